@@ -17,11 +17,16 @@
     `IsGroupModT.translate_closed`: the translates `{g + n}` are closed under product;
   * `nosym_is_group`: the identity alone passes both checkers.
 
-  NOT proved (named `C18_full` below): that the {-1,0,1} candidate search of `gengroup` is complete,
+  * `box_complete`, `candidateRots_complete`: the candidate box taken from the inverse metric
+    (source commit 5853619) is complete (Cauchy–Schwarz, via OnsagerProofs/C21Geom): every unimodular
+    integer matrix preserving a positive metric is among the rotations that `gengroup` tries.
+
+  NOT proved (named `C18_full` below): that `maptranslation` finds a translation whenever one exists,
   i.e. that the reported set contains every symmetry; closure of the reported set is therefore
   checked per crystal by the verified checker (`C18_partial`).
 -/
 import OnsagerModel.C18
+import OnsagerProofs.C21Geom
 import Mathlib.Data.Matrix.Mul
 import Mathlib.Data.Matrix.Basic
 import Mathlib.Algebra.BigOperators.Fin
@@ -46,6 +51,20 @@ theorem tabV_eq {α : Type} (v : Vec d α) : tabV v = v := by
 
 theorem tabM_eq {α : Type} (A : Mat d α) : tabM A = A := by
   funext i j; simp [tabM, TMat.get, TMat.ofFn]
+
+theorem tabVs_eq {α : Type} (l : List (Vec d α)) : tabVs l = l := by
+  simp only [tabVs, List.map_map]
+  conv_rhs => rw [← List.map_id l]
+  apply List.map_congr_left
+  intro v _
+  exact tabV_eq v
+
+theorem tabMs_eq {α : Type} (l : List (Mat d α)) : tabMs l = l := by
+  simp only [tabMs, List.map_map]
+  conv_rhs => rw [← List.map_id l]
+  apply List.map_congr_left
+  intro A _
+  exact tabM_eq A
 
 theorem dotI_eq (u v : Vec d Int) : dotI u v = ∑ k, u k * v k := by
   simp [dotI, List.sum_ofFn]
@@ -1003,6 +1022,154 @@ theorem left_inverse (hG : IsGroupModT shape G) {g : GroupOp d} (hg : g ∈ G)
 
 end IsGroupModT
 
+
+/-! ### Completeness of the candidate search of `gengroup` (box from the inverse metric) -/
+
+section Complete
+open Finset
+
+theorem nsq_eq_B (g : Mat d Rat) (x : Vec d Rat) : nsq g x = Onsager.Geom.B g x x := by
+  simp only [nsq, dotR_eq, mulVecR, Onsager.Geom.B, Finset.mul_sum]
+  refine Finset.sum_congr rfl fun i _ => Finset.sum_congr rfl fun j _ => by ring
+
+theorem invQ?_some {g h : Mat d Rat} (hh : invQ? g = some h) : mmulR g h = oneR := by
+  unfold invQ? at hh
+  simp only [tabM_eq] at hh
+  split at hh
+  · cases hh
+  · split at hh
+    · rename_i hc
+      cases hh
+      exact (matEqR_iff _ _).1 hc
+    · cases hh
+
+theorem foldl_max_ge (l : List Rat) (a : Rat) : a ≤ l.foldl max a ∧ ∀ x ∈ l, x ≤ l.foldl max a := by
+  induction l generalizing a with
+  | nil => simp
+  | cons y t ih =>
+    simp only [List.foldl_cons, List.mem_cons, forall_eq_or_imp]
+    obtain ⟨h1, h2⟩ := ih (max a y)
+    exact ⟨le_trans (le_max_left a y) h1, le_trans (le_max_right a y) h1, h2⟩
+
+/-- **Cauchy–Schwarz completeness of the candidate box**: for a symmetric positive-semidefinite
+    metric with (checked) inverse, every integer vector `u` whose length equals that of some lattice
+    vector `a_k` (`uᵀ g u = g_kk`) lies in the box `|u_i| ≤ nmax_i` that `gengroup` enumerates. -/
+theorem box_complete (g : Mat d Rat) (nb : Vec d Nat) (hs : ∀ i j, g i j = g j i)
+    (hp : ∀ x : Fin d → ℚ, 0 ≤ Onsager.Geom.B g x x) (hb : boxBounds g = some nb)
+    (u : Vec d Int) (k : Fin d) (hu : nsq g (castV u) = g k k) (i : Fin d) :
+    (u i).natAbs ≤ nb i := by
+  unfold boxBounds at hb
+  cases hinv : invQ? g with
+  | none => rw [hinv] at hb; cases hb
+  | some h =>
+    rw [hinv] at hb
+    simp only [Option.some.injEq, tabV_eq] at hb
+    subst hb
+    have hgh := invQ?_some hinv
+    have hinv' : ∀ a b, (∑ c, g a c * h c b) = if a = b then 1 else 0 := by
+      intro a b
+      have := congrFun (congrFun hgh a) b
+      simpa [mmulR, dotR_eq, oneR] using this
+    have hcs := Onsager.Geom.coord_sq_le g h hs hp hinv' (castV u) i
+    have hhpos := Onsager.Geom.inv_diag_pos g h hs hp hinv' i
+    rw [← nsq_eq_B, hu] at hcs
+    have hgmax : g k k ≤ (List.ofFn fun a => g a a).foldl max 0 :=
+      (foldl_max_ge _ 0).2 _ (by simp [List.mem_ofFn])
+    have hle : ((((u i).natAbs * (u i).natAbs : ℕ)) : ℚ) ≤ (List.ofFn fun a => g a a).foldl max 0 * h i i := by
+      have h1 : (((u i).natAbs * (u i).natAbs : ℕ) : ℚ) = castV u i * castV u i := by
+        have hz : ((u i).natAbs : ℤ) * ((u i).natAbs : ℤ) = u i * u i := Int.natAbs_mul_self' (u i)
+        calc (((u i).natAbs * (u i).natAbs : ℕ) : ℚ)
+            = ((((u i).natAbs : ℤ) * ((u i).natAbs : ℤ) : ℤ) : ℚ) := by
+              rw [Nat.cast_mul, Int.cast_mul, Int.cast_natCast]
+          _ = ((u i * u i : ℤ) : ℚ) := by rw [hz]
+          _ = castV u i * castV u i := by simp [castV]
+      rw [h1]
+      exact le_trans hcs (mul_le_mul_of_nonneg_right hgmax hhpos.le)
+    exact le_trans (Onsager.Geom.le_floorSqrt hle) (le_max_right _ _)
+
+theorem vecOfList_ofFn (u : Vec d Int) : vecOfList (List.ofFn u) = u := by
+  funext i
+  simp [vecOfList, List.getD_eq_getElem?_getD]
+
+/-- every non-zero integer vector of the box is enumerated -/
+theorem mem_supercellvect (g : Mat d Rat) (nb : Vec d Nat) (hb : boxBounds g = some nb) (u : Vec d Int)
+    (hne : ∃ i, u i ≠ 0) (hin : ∀ i, (u i).natAbs ≤ nb i) : u ∈ supercellvect g := by
+  unfold supercellvect
+  rw [hb]
+  simp only [tabVs_eq, List.mem_map, List.mem_filter]
+  refine ⟨List.ofFn u, ⟨?_, ?_⟩, vecOfList_ofFn u⟩
+  · rw [Onsager.Geom.mem_boxLists]
+    rw [List.forall₂_iff_get]
+    refine ⟨by simp, fun j h1 h2 => ?_⟩
+    simp only [List.get_eq_getElem, List.getElem_ofFn]
+    exact hin _
+  · obtain ⟨i, hi⟩ := hne
+    simp only [List.any_eq_true, List.mem_ofFn, decide_eq_true_eq]
+    exact ⟨u i, ⟨i, rfl⟩, hi⟩
+
+theorem mem_cart {β : Type} : ∀ (ls : List (List β)) (l : List β),
+    l ∈ cart ls ↔ List.Forall₂ (fun a as => a ∈ as) l ls
+  | [], l => by simp [cart]
+  | as :: ls, l => by
+    simp only [cart, List.mem_flatMap, List.mem_map]
+    constructor
+    · rintro ⟨a, ha, t, ht, rfl⟩
+      exact List.Forall₂.cons ha ((mem_cart ls t).1 ht)
+    · intro h
+      cases h with
+      | cons ha ht => exact ⟨_, ha, _, (mem_cart ls _).2 ht, rfl⟩
+
+/-- **Completeness of the rotation candidates**: for a symmetric positive-semidefinite metric with
+    positive diagonal, every unimodular integer matrix that preserves the metric is among the
+    candidates that the model's (and, after commit 5853619, the source's) `gengroup` tries. -/
+theorem candidateRots_complete (g : Mat d Rat) (hs : ∀ i j, g i j = g j i)
+    (hp : ∀ x : Fin d → ℚ, 0 ≤ Onsager.Geom.B g x x) (hdiag : ∀ k, 0 < g k k)
+    (hbox : (boxBounds g).isSome = true)
+    (R : Mat d Int) (hiso : IsIsometry g R) (hdet : (det R).natAbs = 1) :
+    R ∈ candidateRots g := by
+  obtain ⟨nb, hb⟩ := Option.isSome_iff_exists.1 hbox
+  -- column k of R has the length of a_k
+  have hcol : ∀ k, nsq g (castV fun i => R i k) = g k k := by
+    intro k
+    have := congrFun (congrFun hiso k) k
+    rw [← this]
+    simp only [nsq, mmulR, transp, dotR_eq, mulVecR, castM, castV]
+  have hcolne : ∀ k, ∃ i, R i k ≠ 0 := by
+    intro k
+    by_contra hcon
+    push Not at hcon
+    have h0 : nsq g (castV fun i => R i k) = 0 := by
+      simp [nsq, dotR_eq, castV, hcon]
+    rw [hcol k] at h0
+    exact absurd h0 (ne_of_gt (hdiag k))
+  have hmem : ∀ k, (fun i => R i k) ∈ (supercellvect g).filter
+      (fun u => nsq g (castV u) == g k k) := by
+    intro k
+    rw [List.mem_filter]
+    refine ⟨mem_supercellvect g nb hb _ (hcolne k)
+      (fun i => box_complete g nb hs hp hb _ k (hcol k) i), ?_⟩
+    simp [hcol k]
+  unfold candidateRots
+  simp only [tabMs_eq, List.mem_filter, List.mem_map]
+  refine ⟨⟨List.ofFn fun k => (fun i => R i k), ?_, ?_⟩, ?_⟩
+  · rw [mem_cart, List.forall₂_iff_get]
+    refine ⟨by simp, fun j h1 h2 => ?_⟩
+    simp only [List.get_eq_getElem, List.getElem_ofFn, List.getElem_map, List.getElem_finRange]
+    exact hmem _
+  · funext i j
+    simp [List.getD_eq_getElem?_getD]
+  · simp only [Bool.and_eq_true, beq_iff_eq, preservesMetric_iff]
+    exact ⟨hdet, hiso⟩
+
+/-- in particular the rotation part of EVERY symmetry operation of a crystal is tried -/
+theorem symmetry_rot_is_candidate (c : Crystal d) (hs : ∀ i j, c.metric i j = c.metric j i)
+    (hp : ∀ x : Fin d → ℚ, 0 ≤ Onsager.Geom.B c.metric x x) (hdiag : ∀ k, 0 < c.metric k k)
+    (hbox : (boxBounds c.metric).isSome = true) (g : GroupOp d) (hg : IsSymmetry c g)
+    (hdet : (det g.rot).natAbs = 1) : g.rot ∈ candidateRots c.metric :=
+  candidateRots_complete c.metric hs hp hdiag hbox g.rot hg.metric hdet
+
+end Complete
+
 /-! ### The property, and what is proved of it -/
 
 /-- C18 for one crystal, for the model's `gengroup`: every reported operation is a symmetry
@@ -1011,9 +1178,9 @@ def C18_full (c : Crystal d) : Prop :=
   (∀ g ∈ gengroup c, IsSymmetry c g) ∧ IsGroupModT c.shape (gengroup c)
 
 /-- What is proved: the statement holds for every crystal on which the (verified) checkers
-    succeed.  The missing universally quantified step is the completeness of the {-1,0,1}
-    candidate search (a reduced-basis fact from the geometry of numbers), without which closure of
-    the reported set cannot be derived from `all_ops_form_group`. -/
+    succeed.  The rotation candidates are complete (`candidateRots_complete`); the missing
+    universally quantified step is the completeness of the translation search (`maptranslation`),
+    without which closure of the reported set cannot be derived from `all_ops_form_group`. -/
 theorem C18_partial (c : Crystal d)
     (h : ((gengroup c).all (isSpaceGroupOp c) && isGroupModTranslations c.shape (gengroup c)) = true) :
     C18_full c := by
